@@ -2,6 +2,8 @@
 These are the *trusted* part of the analysis (DESIGN 2.4)."""
 from __future__ import annotations
 
+import ast
+
 from .rt import *
 from .rt import _Return, _Break, _Continue
 from .values import *
@@ -72,7 +74,7 @@ class BuiltinsMixin(AccessMixin):
         for name in ("len", "range", "reversed", "sum", "next", "hex", "isinstance", "getattr", "setattr",
                      "delattr", "hasattr", "callable", "vars", "print", "open", "min", "max", "enumerate",
                      "zip", "sorted", "iter", "any", "all", "abs", "ord", "chr", "repr", "super", "id",
-                     "issubclass", "format", "divmod", "round", "map", "filter"):
+                     "issubclass", "format", "divmod", "round", "map", "filter", "property", "staticmethod", "classmethod", "slice"):
             b[name] = Builtin(name, getattr(self, "bi_" + name))
         b["True"], b["False"], b["None"] = True, False, None
         b["NotImplemented"] = Unknown("NotImplemented")
@@ -137,6 +139,8 @@ class BuiltinsMixin(AccessMixin):
                 return args[1]
             self.event("stop-iteration", where=frame.where(node), node=node)
             raise PyRaise(Instance(self.bclasses["StopIteration"]), node, frame.where(node))
+        if isinstance(g, (list, tuple, dict, str, set, range, bytes)):
+            raise PyRaise(Instance(self.bclasses["TypeError"], ("%r object is not an iterator" % self.kind_of(g),)), node, frame.where(node))
         return Unknown("next of dynamic")
 
     def bi_iter(self, args, kwargs, node, frame):
@@ -276,6 +280,23 @@ class BuiltinsMixin(AccessMixin):
         items = args if len(args) > 1 else self.iterate(args[0], node, frame)
         if items is not None and all(isinstance(norm_int(x), int) for x in items):
             return min(norm_int(x) for x in items)
+        if items is not None and len(items) >= 2:
+            # min(<static position>, len(<device view of unknown length>)): the view model takes a device buffer to be long
+            # enough for every static position the decoder names (exactly what a static slice of it assumes); buffers that
+            # are shorter are decided separately, on buffers of concrete length
+            vals = [norm_int(x) for x in items]
+            lens = [x for x in vals if isinstance(x, Sym) and isinstance(getattr(x, "view", None), View) and x.view.length is None]
+            rest = [x for x in vals if not (isinstance(x, Sym) and isinstance(getattr(x, "view", None), View))]
+            if lens and rest and all(isinstance(x, int) for x in rest):
+                self.event("assumed-long-enough", view=lens[0].view, upto=min(rest), where=frame.where(node), node=node)
+                return min(rest)
+            if lens and len(rest) == 1 and isinstance(rest[0], Sym):
+                # min(<position computed from a length field>, len(<view>)): the same assumption
+                self.event("assumed-long-enough", view=lens[0].view, upto=rest[0], where=frame.where(node), node=node)
+                capped = Sym(bits=rest[0].bits, poly=rest[0].poly, lo=rest[0].lo, hi=rest[0].hi)
+                capped.origin = getattr(rest[0], "origin", None)
+                capped.capped_by_view = lens[0].view      # whatever the field says, never beyond the end of the buffer
+                return capped
         return Unknown("min of dynamic")
 
     def bi_max(self, args, kwargs, node, frame):
@@ -360,7 +381,45 @@ class BuiltinsMixin(AccessMixin):
         return GenVal([self.call(args[0], [x], {}, node, frame) for x in items])
 
     def bi_filter(self, args, kwargs, node, frame):
-        return Unknown("filter")
+        items = self.iterate(args[1], node, frame)
+        if items is None:
+            return Unknown("filter over dynamic")
+        out = []
+        for x in items:
+            keep = x if args[0] is None else self.call(args[0], [x], {}, node, frame)
+            if self.truth(keep, node, frame):
+                out.append(x)
+        return GenVal(out)
+
+    def bi_slice(self, args, kwargs, node, frame):
+        a = [norm_int(x) for x in args]
+        return slice(*a) if 1 <= len(a) <= 3 else Unknown("slice()")
+
+    def bi_property(self, args, kwargs, node, frame):
+        """property(fget=None, fset=None, fdel=None, doc=None) called as a function"""
+        names = ("fget", "fset", "fdel", "doc")
+        got = dict(zip(names, args))
+        got.update(kwargs)
+        p = PropertyVal(fget=got.get("fget"))
+        p.fset = got.get("fset")
+        p.fdel = got.get("fdel")
+        return p
+
+    def bi_staticmethod(self, args, kwargs, node, frame):
+        f = args[0]
+        if isinstance(f, FuncVal):
+            f2 = FuncVal(f.name, f.node, f.module, kind="staticmethod", cls=f.cls, closure=f.closure)
+            f2.defaults, f2.kw_defaults = getattr(f, "defaults", []), getattr(f, "kw_defaults", [])
+            return f2
+        return f
+
+    def bi_classmethod(self, args, kwargs, node, frame):
+        f = args[0]
+        if isinstance(f, FuncVal):
+            f2 = FuncVal(f.name, f.node, f.module, kind="classmethod", cls=f.cls, closure=f.closure)
+            f2.defaults, f2.kw_defaults = getattr(f, "defaults", []), getattr(f, "kw_defaults", [])
+            return f2
+        return f
 
     def bi_super(self, args, kwargs, node, frame):
         return SuperProxy(frame)
@@ -561,6 +620,10 @@ class BuiltinsMixin(AccessMixin):
                 def get(a, k, n, f):
                     key = norm_int(I.hash_check(a[0], n, f))
                     dflt = a[1] if len(a) > 1 else None
+                    if isinstance(key, Sym):
+                        hit = I.small_table_lookup(obj, key, n, f)
+                        if hit is not None:
+                            return hit[1] if hit[0] else dflt
                     if isinstance(key, (Sym, SymAny, SymStr, Unknown)):
                         return Unknown("dict.get with dynamic key")
                     try:
@@ -671,6 +734,17 @@ class BuiltinsMixin(AccessMixin):
                     return v
                 return I.mk("symdict.pop", spop)
             return None
+        if isinstance(obj, tuple):
+            if name == "index":
+                def tindex(a, k, n, f):
+                    for i, x in enumerate(obj):
+                        if x is a[0] or I.compare(ast.Eq(), x, a[0], n, f):
+                            return i
+                    raise PyRaise(Instance(I.bclasses["ValueError"], ("tuple.index(x): x not in tuple",)), n, f.where(n))
+                return I.mk("tuple.index", tindex)
+            if name == "count":
+                return I.mk("tuple.count", lambda a, k, n, f: sum(1 for x in obj if x is a[0] or I.compare(ast.Eq(), x, a[0], n, f)))
+            return None
         if isinstance(obj, list):
             if name == "append":
                 def append(a, k, n, f):
@@ -697,7 +771,13 @@ class BuiltinsMixin(AccessMixin):
                         return I.index_error(n, f)
                 return I.mk("list.pop", lpop)
             if name == "index":
-                return I.mk("list.index", lambda a, k, n, f: obj.index(a[0]) if I.is_static(a[0]) and a[0] in obj else Unknown("index"))
+                def lindex(a, k, n, f):
+                    # list.index / tuple.index: the first position whose element equals the value (== as python compares)
+                    for i, x in enumerate(obj):
+                        if x is a[0] or I.compare(ast.Eq(), x, a[0], n, f):
+                            return i
+                    raise PyRaise(Instance(I.bclasses["ValueError"], ("%r is not in list" % (a[0],),)), n, f.where(n))
+                return I.mk("list.index", lindex)
             if name in ("sort", "reverse", "insert", "remove", "clear"):
                 def mut(a, k, n, f):
                     static_guard(obj)
@@ -707,7 +787,7 @@ class BuiltinsMixin(AccessMixin):
                         pass
                 return I.mk("list." + name, mut)
             if name == "count":
-                return I.mk("list.count", lambda a, k, n, f: Unknown("count"))
+                return I.mk("list.count", lambda a, k, n, f: sum(1 for x in obj if x is a[0] or I.compare(ast.Eq(), x, a[0], n, f)))
             return None
         if isinstance(obj, (set, frozenset)):
             if name == "union":
@@ -850,6 +930,30 @@ class BuiltinsMixin(AccessMixin):
                     pad = [fillv] * max(0, width - len(obj.cells))
                     return Buf(cells=(list(obj.cells) + pad) if name == "ljust" else (pad + list(obj.cells)), origin=f.where(n))
                 return I.mk("bytearray." + name, just)
+            if name in ("reverse", "insert", "pop", "clear") and isinstance(obj, Buf) and obj.cells is not None:
+                def bmut(a, k, n, f):
+                    if getattr(obj, "pytype", None) in ("bytes", "memoryview"):
+                        raise PyRaise(Instance(I.bclasses["AttributeError"], ("'%s' object has no attribute '%s'" % (obj.pytype, name),)), n, f.where(n))
+                    I.journal_buf(obj)
+                    idx = [norm_int(x) for x in a]
+                    if name == "reverse":
+                        obj.cells.reverse()
+                        return None
+                    if name == "clear":
+                        obj.cells[:] = []
+                    elif name == "insert" and isinstance(idx[0], int):
+                        obj.cells.insert(idx[0], idx[1])
+                    elif name == "pop" and (not idx or isinstance(idx[0], int)):
+                        if not obj.cells:
+                            raise PyRaise(Instance(I.bclasses["IndexError"], ("pop from empty bytearray",)), n, f.where(n))
+                        r = obj.cells.pop(*idx[:1])
+                        obj.length = len(obj.cells)
+                        return r
+                    else:
+                        raise AnalysisError("unmodelled-builtin", "bytearray.%s with a dynamic index at %s" % (name, f.where(n)))
+                    obj.length = len(obj.cells)
+                    return None
+                return I.mk("bytearray." + name, bmut)
             if name in ("extend", "append") and isinstance(obj, Buf):
                 def bext(a, k, n, f):
                     if name == "append":
@@ -882,6 +986,17 @@ class BuiltinsMixin(AccessMixin):
             return None
         if isinstance(obj, GenVal):
             return None
+        if isinstance(obj, ExitStackVal):
+            if name == "callback":
+                def cb(a, k, n, f):
+                    obj.callbacks.append((a[0], list(a[1:]), dict(k)))
+                    return a[0]
+                return I.mk("ExitStack.callback", cb)
+            if name == "close":
+                return I.mk("ExitStack.close", lambda a, k, n, f: I.run_exit_stack(obj, n, f))
+            if name == "__enter__":
+                return I.mk("ExitStack.__enter__", lambda a, k, n, f: obj)
+            raise AnalysisError("unmodelled-stdlib", "contextlib.ExitStack.%s used at %s" % (name, where))
         if isinstance(obj, SymList):
             if name == "append":
                 return I.mk("symlist.append", lambda a, k, n, f: None)
